@@ -2,7 +2,8 @@
     Only statements here; proofs live in Proofs/Qr*.v. *)
 From Qv Require Import Common.Bytes Gen.GenQrdata Model.Mime Model.QrData Spec.SmtpDataSpec
   Proofs.QrNeedRecodeProofs Proofs.QrPlainSpecProofs Proofs.QrQpDecodeProofs Proofs.QrQpTopProofs Proofs.QrWrapLineProofs
-  Spec.DeliverSpec Spec.MultipartSpec Proofs.QrPhaseProofs Proofs.QrEntityProofs Proofs.QrContentProofs Proofs.QrMultiContentProofs.
+  Spec.DeliverSpec Spec.MultipartSpec Proofs.QrPhaseProofs Proofs.QrEntityProofs Proofs.QrContentProofs Proofs.QrMultiContentProofs
+  Proofs.QrFieldsProofs.
 Require Import Lia.
 
 (** When no recoding is necessary, what is sent after the 354 is, byte for byte, the message with CR, LF
@@ -48,8 +49,8 @@ Print Assumptions C07_qp_body.
       the body (CRLF-normalised, up to the final CRLF); otherwise it is the CRLF-normalised, dot-stuffed body;
     - [extra] is empty, except possibly one CRLF (an empty line) behind a message that consists of a header
       only.
-    Not covered: which of several Content-Transfer-Encoding fields is the recorded one (the last), and that no
-    field was overlooked; multipart messages. *)
+    (h, s, l) are what the header analysis [qh_view] of the code finds; [C07_header_fields] says what that is: the
+    field is the LAST line of the header that starts with the name, and none is overlooked. *)
 Theorem C07_recoded_content : forall (m helo : bytes) (ext8 : bool),
   line_clean helo /\ seven_bit helo /\ length helo <= 255 ->
   Forall (fun c => (c < 256)%N) m ->
@@ -57,6 +58,7 @@ Theorem C07_recoded_content : forall (m helo : bytes) (ext8 : bool),
   forall fl st, send_data m helo ext8 = Ok (fl, true, Done tt st) ->
   let br := f8 fl || fline fl in
   exists h s l X1 X2 B extra,
+    (exists ct, qh_view m 0 (length m) = Ok (h, ct, (s, l))) /\
     1 <= h <= length m /\
     (h = hpos 0 m \/ exists c0 r, m = c0 :: r /\ is_eol c0 = true /\ skipn h m = after_eol c0 r) /\
     (l <> 0 -> s + l <= length m /\ s <= h /\ (s = 0 \/ is_eol (nth (s - 1) m 0%N) = true) /\
@@ -105,6 +107,35 @@ Theorem C07_multipart_content : forall (m helo : bytes) (ext8 : bool),
                   ent_sent m ext8 (RECODED_STR ++ helo ++ CRLF) (hview m) 0 (length m) W.
 Proof. exact send_data_multipart_content. Qed.
 Print Assumptions C07_multipart_content.
+
+(** What the header analysis of qp_header ([qh_view]: the scan with getfieldlen()) finds in a window (b, len) of the
+    message, on the octets.  [lst j]: j is the first octet of a line; [nam N j]: the line starting at j begins with
+    the name N in any case.
+    - h, the end of the header: the offset of the first empty line of the window (the window's length if there
+      is none), or, if the window begins with an empty line, the end of that line;
+    - a recorded Content-Type / Content-Transfer-Encoding field starts a line at or before h with that name, lies
+      in the window, and its length is what getfieldlen() returns (first line and continuation lines);
+    - nothing is overlooked and the last one counts: in a window that ends with a line end, every line start in
+      front of h with the name lies at or in front of the recorded field, and a field is recorded.  (Without the
+      final line end the last line of the window may be such a field without being recorded: it is no complete
+      field for getfieldlen().)
+    So with several Content-Transfer-Encoding fields only the last is taken out when the body is recoded; an
+    earlier one stays in front of the marker lines (see reports/C07.md, "duplicate fields"). *)
+Theorem C07_header_fields : forall (m : bytes) (b len h : nat) (ct ce : nat * nat),
+  b + len <= length m -> 1 <= len -> qh_view m b len = Ok (h, ct, ce) ->
+  let lst j := j = 0 \/ is_eol (nth (b + j - 1) m 0%N) = true in
+  let nam (N : bytes) j := j + length N <= len /\ map to_lower (sub m (b + j) (length N)) = N in
+  1 <= h <= len /\
+  (h = hpos 0 (sub m b len) \/
+   exists c0 r, sub m b len = c0 :: r /\ is_eol c0 = true /\ skipn h (sub m b len) = after_eol c0 r) /\
+  (snd ct <> 0 -> lst (fst ct) /\ map to_lower (sub m (b + fst ct) (length CT_NAME)) = CT_NAME /\ fst ct <= h /\
+                  fst ct + snd ct <= len /\ getfieldlen m (b + fst ct) (len - fst ct) = Ok (snd ct)) /\
+  (snd ce <> 0 -> lst (fst ce) /\ map to_lower (sub m (b + fst ce) (length CTE_NAME)) = CTE_NAME /\ fst ce <= h /\
+                  fst ce + snd ce <= len /\ getfieldlen m (b + fst ce) (len - fst ce) = Ok (snd ce)) /\
+  (ends_eol (sub m b len) = true -> forall j, j < h -> lst j ->
+     (nam CT_NAME j -> snd ct <> 0 /\ j <= fst ct) /\ (nam CTE_NAME j -> snd ce <> 0 /\ j <= fst ce)).
+Proof. exact header_fields_plain. Qed.
+Print Assumptions C07_header_fields.
 
 (** wrap_line() on any line of at least WL_LONG octets: what it writes is the dot-stuffed line followed by
     CRLF with "CRLF SP" inserted at some places — [unfolds_to], the relation with which the C07 checker
